@@ -251,7 +251,7 @@ pub fn run_c03(cx: &Cx) -> PropResult {
         // E2: every history of the compiled batch, all version pairs, through the derive macro's code
         let nh = crate::props::derived::batch().histories.len();
         for h in 0..nh {
-            if h % cx.shards != shard {
+            if h % cx.shards != shard || !crate::props::derived::group_ok(&crate::props::derived::batch().histories[h]) {
                 continue;
             }
             let strat = compiled_evo_strategy(h);
@@ -262,6 +262,9 @@ pub fn run_c03(cx: &Cx) -> PropResult {
         }
         let nt = crate::props::derived::batch().tuple_histories.len();
         for t in (shard..nt).step_by(cx.shards) {
+            if !crate::props::derived::group_ok(&crate::props::derived::batch().tuple_histories[t]) {
+                continue;
+            }
             let strat = tuple_evo_strategy(t);
             if drive(crate::run::tag_seed(derive_seed(cx.seed, cx.prop, t as u64, 8), 1000 + t as u64), &strat, per_compiled, acc, &|c: &TupleEvoCase| to_json(&json!({"Tuple": c})), &mut |c, a, r| check_c03_tuple(c, a, r)) {
                 return;
